@@ -306,3 +306,18 @@ MUTANTS += [
 NEUTRALS = [
     M("to_namespace keyword order", _S, "xp=xp,\n            device=self.device,\n            dtype=dtype,", "dtype=dtype,\n            xp=xp,\n            device=self.device,"),
 ]
+
+# functions the property is anchored in (auto-mutant sweep of the thorough tier)
+ANCHORS = [
+    'aspire.samples:BaseSamples.to_numpy',
+    'aspire.samples:BaseSamples.to_namespace',
+    'aspire.samples:BaseSamples.from_samples',
+    'aspire.samples:Samples.to_namespace',
+    'aspire.samples:Samples.to_numpy',
+    'aspire.samples:SMCSamples.to_numpy',
+    'aspire.samples:SMCSamples.to_namespace',
+    'aspire.samples:SMCSamples.to_standard_samples',
+    'aspire.samples:BaseSamples.array_to_namespace',
+    'aspire.utils:asarray',
+    'aspire.utils:to_numpy',
+]
